@@ -30,7 +30,7 @@ META = dict(
     property="C30",
     level="exploration",
     technique="Hypothesis-generated box sequences and typed argument values; serialize -> independent reference decoder + real parser under generated/enumerated stream splits; refusal oracle for unrepresentable boxes",
-    level_text="Random sequences of AMP boxes (keys 1..255 bytes, values 0..65535 bytes, boundary lengths forced) mixed with unrepresentable ones (empty / 256+ byte keys, 65536+ byte values, str/int/None/float/list/tuple keys or values) are sent through BinaryBoxProtocol.sendBox; every refusal must leave the transport untouched, and the written stream must decode to the accepted boxes both with a reference decoder and with BinaryBoxProtocol fed whole, byte-wise, cut inside every length prefix, and at random cuts; all single and double cuts of four fixed streams are enumerated. Every argument type round-trips generated values directly and through Command.makeArguments/parseArguments over the wire; histories on ONE (shared, schema-level) Argument object interleave valid round trips with decodes of truncated / extended / foreign strings, and each valid round trip must be independent of what the object decoded before. Sampled, not exhaustive.",
+    level_text="Random sequences of AMP boxes (keys 1..255 bytes, values 0..65535 bytes, boundary lengths forced) mixed with unrepresentable ones (empty / 256+ byte keys, 65536+ byte values, str/int/None/float/list/tuple keys or values) are sent through BinaryBoxProtocol.sendBox; every refusal must leave the transport untouched, and the written stream must decode to the accepted boxes both with a reference decoder and with BinaryBoxProtocol fed whole, byte-wise, cut inside every length prefix, and at random cuts, and again with a box receiver that pauses the parser (pauseProducing from inside ampBoxReceived after its k-th box) and resumes it right after the delivery, before the next one, or after the last one; all single and double cuts of four fixed streams are enumerated. Every argument type round-trips generated values directly and through Command.makeArguments/parseArguments over the wire; histories on ONE (shared, schema-level) Argument object interleave valid round trips with decodes of truncated / extended / foreign strings, and each valid round trip must be independent of what the object decoded before. Sampled, not exhaustive.",
     level_note="Trusted: the reference decoder (30 lines, from the BinaryBoxProtocol docstring), Python's struct/decimal/datetime. Equality oracle: floats bitwise (NaN by class), Decimal by as_tuple, DateTime by wall-clock fields and utcoffset (sub-minute offsets: within one minute), FilePath by == and .path. Integers are kept below 2^8000 (CPython's 4300-digit int<->str limit). Sub-minute UTC offsets below -23:59 are not generated (they cannot be expressed in the wire format).",
     design_ref="§5 C30",
     rule="boxes: case = (list of boxes as key/value specs, cut mode). non-trivial = >=2 representable boxes and at least one cut strictly inside a 2-byte length prefix; distinct by (boxes, effective cut offsets). arg/cmd: non-trivial = value is special (|int|>=2^64, non-finite/-0.0/subnormal float, special or exponent-bearing Decimal, non-zero UTC offset, non-ASCII text, list nesting >=2, AmpList with >=2 rows); distinct by (spec, value). arghist: non-trivial = a valid round trip is checked after a malformed decode on the same argument object; distinct by (spec, steps).",
@@ -84,8 +84,8 @@ def classify(k, v):
 def ref_decode(data):
     """Reference decoder from the BinaryBoxProtocol docstring.
 
-    Returns (boxes, prefix_starts) or raises ValueError."""
-    boxes, cur, pos, prefixes = [], {}, 0, []
+    Returns (boxes, prefix_starts, box_end_offsets) or raises ValueError."""
+    boxes, cur, pos, prefixes, ends = [], {}, 0, [], []
     n = len(data)
     while pos < n:
         if pos + 2 > n:
@@ -95,6 +95,7 @@ def ref_decode(data):
         pos += 2
         if kl == 0:
             boxes.append(cur)
+            ends.append(pos)
             cur = {}
             continue
         if kl > MAXK:
@@ -116,7 +117,7 @@ def ref_decode(data):
         pos += vl
     if cur:
         raise ValueError("stream ends inside a box")
-    return boxes, prefixes
+    return boxes, prefixes, ends
 
 
 class _Transport:
@@ -140,6 +141,16 @@ class _Transport:
         self.disconnecting = True
 
     abortConnection = loseConnection
+
+    # the parser may be paused by its consumer (it is an IPushProducer)
+    def pauseProducing(self):
+        self.paused = True
+
+    def resumeProducing(self):
+        self.paused = False
+
+    def stopProducing(self):
+        self.paused = True
 
     def getPeer(self):
         return "peer"
@@ -203,6 +214,66 @@ def parse_with(amp, segments):
     return rcv, tr
 
 
+class _PausingReceiver(_Receiver):
+    """A box receiver that applies back-pressure: when it has received its
+    k-th box (k in `pause_at`) it calls pauseProducing() on the protocol from
+    inside ampBoxReceived."""
+
+    def __init__(self, pause_at):
+        _Receiver.__init__(self)
+        self.pause_at = set(pause_at)
+        self.proto = None
+        self.pauses = []             # number of boxes received when each pause was requested
+
+    def ampBoxReceived(self, box):
+        self.boxes.append(box)
+        n = len(self.boxes)
+        if n in self.pause_at and not self.proto.paused:
+            self.pause_at.discard(n)
+            self.pauses.append(n)
+            self.proto.pauseProducing()
+
+
+def parse_paused(ctx, case, amp, segments, spec, ends):
+    """Deliver `segments` to a BinaryBoxProtocol whose receiver pauses it.
+
+    resume = "after": resumeProducing() as soon as the delivery that caused
+    the pause has returned; "before": just before the next delivery; "end":
+    deliveries go on while paused (the parser buffers) and the protocol is
+    resumed after the last one.  Returns (receiver, transport, number of
+    pauses that left >= 2 undelivered bytes of the current chunk behind)."""
+    rcv = _PausingReceiver(spec["at"])
+    tr = _Transport()
+    proto = amp.BinaryBoxProtocol(rcv)
+    rcv.proto = proto
+    proto.makeConnection(tr)
+    mode = spec["resume"]
+    budget = [len(spec["at"]) + 3]
+
+    def drain():
+        while proto.paused:
+            budget[0] -= 1
+            if budget[0] < 0:
+                ctx.violation("boxes-paused-receiver-never-drains", case, "still paused after every pause point was used")
+            proto.resumeProducing()
+
+    delivered = 0
+    leftovers = 0
+    for seg in segments:
+        if mode == "before":
+            drain()
+        seen = len(rcv.pauses)
+        delivered += len(seg)
+        proto.dataReceived(seg)
+        for n in rcv.pauses[seen:]:
+            if n - 1 < len(ends) and delivered - ends[n - 1] >= 2:
+                leftovers += 1
+        if mode == "after":
+            drain()
+    drain()
+    return rcv, tr, leftovers
+
+
 def plain_boxes(boxes):
     return [dict(b) for b in boxes]
 
@@ -210,7 +281,7 @@ def plain_boxes(boxes):
 def check_stream(ctx, amp, case, stream, expected, tag):
     """stream must decode to `expected` (list of dicts) by reference, whole and split."""
     try:
-        ref, prefixes = ref_decode(stream)
+        ref, prefixes, ends = ref_decode(stream)
     except ValueError as e:
         ctx.violation(f"{tag}-wire-not-decodable-by-reference", case, f"{e}; stream={stream[:200]!r}")
     if ref != expected:
@@ -235,6 +306,21 @@ def check_stream(ctx, amp, case, stream, expected, tag):
         if got2 != expected:
             ctx.violation(f"{tag}-roundtrip-differs-split", case,
                           f"cuts={cuts[:20]} parsed {str(got2)[:400]} expected {str(expected)[:400]}")
+    if case.get("pause") and case["pause"]["at"]:
+        # consumer back-pressure: pauseProducing() from inside ampBoxReceived,
+        # resumeProducing() later; every box must still arrive exactly once
+        segs = split(stream, cuts) if cuts else ([stream] if stream else [])
+        rcv3, tr3, leftovers = parse_paused(ctx, case, amp, segs, case["pause"], ends)
+        if tr3.closed or rcv3.stopped:
+            ctx.violation(f"{tag}-receiver-closed-paused", case, f"cuts={cuts[:20]} pause={case['pause']}")
+        got3 = plain_boxes(rcv3.boxes)
+        if got3 != expected:
+            ctx.violation(f"{tag}-roundtrip-differs-paused", case,
+                          f"cuts={cuts[:20]} pause={case['pause']} parsed {str(got3)[:400]} expected {str(expected)[:400]}")
+        if rcv3.pauses:
+            ctx.count("boxes: receiver paused the parser from inside ampBoxReceived")
+        if leftovers:
+            ctx.count("boxes: pause left >=2 undelivered bytes of the same chunk buffered", leftovers)
     pset = set(p + 1 for p in prefixes)
     in_prefix = [c for c in cuts if c in pset]
     return cuts, in_prefix, rcv.boxes
@@ -755,6 +841,9 @@ def boxes_case(draw):
     case = dict(kind="boxes", items=items, cuts=cuts)
     if fcuts:
         case["fcuts"] = fcuts
+    if draw(st.integers(0, 2)) == 0:
+        case["pause"] = dict(at=sorted(draw(st.sets(st.integers(1, 5), min_size=1, max_size=3))),
+                             resume=draw(st.sampled_from(["after", "before", "end"])))
     return case
 
 
@@ -935,6 +1024,14 @@ def _enum_cases(ctx):
         singles = list(range(1, n))
         for c in singles:
             yield dict(kind="boxes", items=items, cuts=[c])
+        # consumer back-pressure: pause after the k-th box, every resume
+        # policy, stream whole and with every single cut
+        for k in range(1, len(items) + 1):
+            for mode in ("after", "before", "end"):
+                yield dict(kind="boxes", items=items, cuts="whole", pause=dict(at=[k], resume=mode))
+                for c in singles[:ctx.pick(60, 400)]:
+                    yield dict(kind="boxes", items=items, cuts=[c], pause=dict(at=[k], resume=mode))
+        yield dict(kind="boxes", items=items, cuts="whole", pause=dict(at=list(range(1, len(items) + 1)), resume="end"))
         head = [c for c in singles if c <= limit or c >= n - 8]
         for i, a in enumerate(head):
             for b in head[i + 1:]:
